@@ -59,6 +59,9 @@ pub fn run(tier: Tier) -> Run {
     run.set("bound_completed", json!({"enumeration_depth": a.depth_completed, "closure_depth": if b.depth_completed == usize::MAX { d_clos } else { b.depth_completed }}));
     run.set("enumeration", json!({"states": a.states, "transitions": a.transitions}));
     run.set("closure", json!({"states": b.states, "transitions": b.transitions, "per_depth_states": b.per_depth_states}));
+    if tier == Tier::Thorough {
+        crate::report::second_engine(&mut run, "C12", 5);
+    }
     run.set("caps_hit", json!(b.caps_hit));
     run.set("exhaustive", json!(b.caps_hit.is_empty()));
     run.set("samples", json!(a.sample_histories.iter().chain(b.sample_histories.iter()).collect::<Vec<_>>()));
